@@ -4,8 +4,9 @@ Property theorems only; the model is Model/Lifecycle (session.go, peer.go, socke
 lemmas live in Lemmas/Lifecycle.
 
 The machine: any number of sessions on any number of peers; per session the lock-serialised closer
-thread, the reader thread with its disconnect path (status load and compare-and-swap are two steps;
-a failed compare-and-swap loads again), the accept thread (ServeConn order and listener order; the
+thread, the reader thread with its read loop (loop condition, frame arrival, second status test
+and handler start are four steps) and its disconnect path (status load and compare-and-swap are two
+steps; a failed compare-and-swap loads again), the accept thread (ServeConn order and listener order; the
 step to Ok is a compare-and-swap from Preparing), SetID threads with the nested `hub.set`;
 `Reach` = every interleaving of the system as coded, with any goroutine calling `Close()` at any
 time (in the accept hooks, between the hooks and the step to Ok, between the reader's status load
@@ -20,6 +21,7 @@ import Teleport.Lemmas.Lifecycle
 import Teleport.Model.Redial
 import Teleport.Lemmas.SrcFlow
 import Teleport.Gen.Transitions
+import Teleport.Gen.ReadLoop
 namespace Teleport
 namespace C07
 open Lifecycle
@@ -51,7 +53,7 @@ theorem C07_healthy_after_hooks (w : World) (r : Reach World.empty w) (s : Sess)
 
 /-- the read loop is spawned only by a step whose guard is "the step to Ok succeeded". -/
 theorem C07_reader_starts_after_ok (c c' : Core) (h : lstep c .spawn = some c') : c.ph = .running := by
-  simp only [lstep] at h
+  simp only [lstep, lstepV] at h
   split at h
   · rename_i g; exact g.1
   · cases h
@@ -110,7 +112,7 @@ theorem C07_closed_absorbing (w : World) (r : Reach World.empty w) (s : Sess) (h
     (remote end gone, the reader loads `Ok`, a local `Close()` runs to its end, the reader goes on).
     The reader's compare-and-swap fails, it loads again, finds ActiveClosed and returns. -/
 def closeVsDisconnect : List Ev :=
-  [.new 0 1 0 .serve, .hookOk 0, .acc 0, .acc 0, .acc 0,
+  [.new 0 1 0 .serve, .hookOk 0, .acc 0, .acc 0, .acc 0, .l 0 .rdTop,
    .l 0 .eof, .l 0 .rdExit, .l 0 .dLoad,
    .l 0 .closeCall, .l 0 .cHubDel, .l 0 .cNotify, .l 0 .cCallWait, .l 0 .cStore, .l 0 .cSock, .l 0 .cHook,
    .l 0 .dStore, .l 0 .dLoad, .l 0 .dStore]
@@ -203,13 +205,18 @@ theorem C07_write_passes_when_ok (st : Status) (isReply : Bool)
 theorem C07_goonRead_iff (st : Status) : goonRead st = true ↔ (st = .ok ∨ st = .activeClosing) := by
   cases st <;> simp [goonRead]
 
-/-- A received frame starts a handler iff the status is Ok or ActiveClosing at the check after
-    `ReadMessage`; otherwise the read loop exits into `readDisconnected`. No other step starts a
-    handler, so once the status is outside {Ok, ActiveClosing} the handler count stays. -/
+/-- The read loop, step by step, for every step of every thread: only `rdAdd` starts a handler, and
+    it is enabled only with the reader past the post-read test; the reader gets past that test only
+    by `rdChk` with the status in {Ok, ActiveClosing} AT THAT MOMENT — after `ReadMessage` has
+    returned; with any other status `rdChk` drops the frame and the loop is left into
+    `readDisconnected`; the loop condition `rdTop` (tested BEFORE the blocking read) does the same
+    without reading; a frame is taken (`rdMsg`) only by a reader blocked in `ReadMessage`. -/
 theorem C07_no_new_handler (c c' : Core) (e : LEv) (h : lstep c e = some c') :
-    (c'.handlers = c.handlers ∨ (e = .rdMsg ∧ goonRead c.st = true ∧ c'.handlers = c.handlers + 1)) ∧
-    (goonRead c.st = false → c'.handlers = c.handlers) ∧
-    (e = .rdMsg → goonRead c.st = false → c'.reader = .disc0) := by
+    (c'.handlers = c.handlers ∨ (e = .rdAdd ∧ c.reader = .add ∧ c'.handlers = c.handlers + 1)) ∧
+    (c'.reader = .add → c.reader = .add ∨ (e = .rdChk ∧ c.reader = .got ∧ goonRead c.st = true)) ∧
+    (e = .rdChk → goonRead c.st = false → c'.reader = .disc0) ∧
+    (e = .rdTop → goonRead c.st = false → c'.reader = .disc0) ∧
+    (c'.reader = .got → c.reader = .got ∨ (e = .rdMsg ∧ c.reader = .reading ∧ c'.late = c.st.isClosed)) := by
   lstep_split h
   all_goals (
     first
@@ -220,8 +227,83 @@ theorem C07_no_new_handler (c c' : Core) (e : LEv) (h : lstep c e = some c') :
     | obtain ⟨rfl, rfl⟩ := h)
   all_goals (simp_all [Core.store, Core.notify] <;> (try split) <;> simp_all)
 
-example : lstep { Core.init with ph := .running, st := .ok, reader := .loop } .rdMsg =
+example : lrunV true { Core.init with ph := .running, st := .ok, reader := .loop } [.rdTop, .rdMsg, .rdChk, .rdAdd] =
     some { Core.init with ph := .running, st := .ok, reader := .loop, handlers := 1 } := by decide
+
+/-- **No new handler after the closed status is stored.** In EVERY interleaving of any number of
+    sessions (closer at any point of `closeLocked`, frames arriving at any moment the socket is still
+    open, `Close()` calls from anywhere), for every session: no handler has ever been started for a
+    frame that `ReadMessage` returned when the status was already ActiveClosed / PassiveClosed
+    (`lateH = 0`); a reader about to start a handler holds a frame that arrived before that; and a
+    frame that did arrive in a closed status is — because the status is tested again AFTER the read
+    and the closed status is never left — dropped by the reader's next step, which leaves the loop
+    without starting a handler. (The loop condition alone cannot give this: it was evaluated before
+    the read, when the status may still have been Ok — see `C07_no_recheck_witness`.) -/
+theorem C07_no_new_handler_after_closed (w : World) (r : Reach World.empty w) (s : Sess) (hs : s ∈ w.sess) :
+    s.core.lateH = 0 ∧
+    (s.core.reader = .add → s.core.late = false) ∧
+    (s.core.reader = .got → s.core.late = true →
+      s.core.st.isClosed = true ∧
+      ∀ c', lstep s.core .rdChk = some c' → c'.reader = .disc0 ∧ c'.handlers = s.core.handlers) := by
+  have hr := sess_reach r hs
+  have hi := lreach_hinv hr sinv_init rinv_init hinv_init
+  refine ⟨hi.lateH, hi.addFresh, fun hg hl => ?_⟩
+  have hc := hi.gotLate hg hl
+  refine ⟨hc, fun c' h => ?_⟩
+  have hgo : goonRead s.core.st = false := by
+    cases hst : s.core.st <;> simp [hst, Status.isClosed] at hc <;> rfl
+  simp only [lstep, lstepV, hg, hgo] at h
+  simp at h
+  subst h
+  exact ⟨rfl, rfl⟩
+
+/-- the local `Close()` has stored ActiveClosed and stands before `socket.Close()` (gate
+    `close.sock`); a complete frame arrives and `ReadMessage` returns it. -/
+def lateFrame : List LEv :=
+  [.hookOk, .storeOk, .spawn, .rdTop, .closeCall, .cHubDel, .cNotify, .cCallWait, .cStore, .rdMsg]
+
+/-- non-vacuity of `C07_no_new_handler_after_closed`: that state is reachable (the reader holds a
+    frame that arrived in ActiveClosed), and as coded the next reader step drops it. -/
+example : ∃ c, LReach Core.init c ∧ c.reader = .got ∧ c.late = true ∧ c.st = .activeClosed ∧ c.closer = .sock ∧
+    (lstep c .rdChk).map (fun c' => (c'.reader, c'.handlers)) = some (.disc0, 0) :=
+  ⟨_, lreach_of_v (lreachV_of_run (rc := true) (es := lateFrame) rfl), by decide⟩
+
+/-- **Without the second test the property fails.** The same read loop with the post-read `goonRead`
+    test removed (`lstepV false`: the loop condition is the only status test) admits, on the schedule
+    `lateFrame` followed by the reader's next two steps, a handler start on a closed session: status
+    ActiveClosed, `Health()` false, close notification fired, `Close()` past its waits and standing
+    before `socket.Close()` — and the frame arrived after the closed status was stored (`lateH = 1`). -/
+theorem C07_no_recheck_witness :
+    ∃ c, LReachV false Core.init c ∧ c.st = .activeClosed ∧ c.closer = .sock ∧ c.sockClosed = false ∧
+      c.health = false ∧ c.didNotify = true ∧ c.handlers = 1 ∧ c.lateH = 1 :=
+  ⟨_, lreachV_of_run (rc := false) (es := lateFrame ++ [.rdChk, .rdAdd]) rfl, by decide⟩
+
+/-- ... and on the same schedule the loop as coded starts none: after `rdChk` the reader is in
+    `readDisconnected`, `rdAdd` is not enabled. -/
+theorem C07_recheck_drops_late_frame :
+    (lrunV true Core.init (lateFrame ++ [.rdChk])).map (fun c => (c.reader, c.handlers, c.lateH)) = some (.disc0, 0, 0) ∧
+    lrunV true Core.init (lateFrame ++ [.rdChk, .rdAdd]) = none := by
+  decide
+
+/-- the `read.add` window: the frame arrived and passed the post-read test while the status was Ok;
+    then a local `Close()` runs to its END (no handler is counted yet, so neither wait holds it);
+    then the reader executes `Add(1)` and starts the handler. -/
+def readAddWindow : List LEv :=
+  [.hookOk, .storeOk, .spawn, .rdTop, .rdMsg, .rdChk,
+   .closeCall, .cHubDel, .cNotify, .cCallWait, .cStore, .cSock, .cHook, .rdAdd]
+
+/-- **The `read.add` window (a finding about the code as it is).** "No new handler starts after a
+    local close" does NOT hold for a frame that has passed the post-read test but whose
+    `graceCtxWaitGroup.Add(1)` has not run yet when `Close()` is called: test and `Add(1)` are two steps,
+    `Close()` fits in between, and the handler then starts in ActiveClosed after `Close()` has returned
+    (the same window as `C08_read_add_window_witness`). It is not a late frame (`lateH = 0`): it arrived
+    and was tested in status Ok — by `C07_no_new_handler` and `C07_no_new_handler_after_closed` this is
+    the only way a handler can start in a closed status. -/
+theorem C07_read_add_window_witness :
+    ∃ c, LReach Core.init c ∧ c.st = .activeClosed ∧ c.closer = .idle ∧ c.discCnt = 1 ∧ c.sockClosed = true ∧
+      c.handlers = 1 ∧ c.lateH = 0 ∧
+      (lrunV true Core.init (readAddWindow.take 13)).map (fun b => (b.st, b.handlers, b.reader)) = some (.activeClosed, 0, .add) :=
+  ⟨_, lreach_of_v (lreachV_of_run (rc := true) (es := readAddWindow) rfl), by decide⟩
 
 /-! ## the index is exact -/
 
@@ -279,13 +361,14 @@ theorem C07_hub_setid_closed :
 
 /-- two connections from the same address on one peer, both ends served, everything at rest. -/
 def takeoverSchedule : List Ev :=
-  [.new 0 1 0 .serve, .hookOk 0, .acc 0, .acc 0, .acc 0,
+  [.new 0 1 0 .serve, .hookOk 0, .acc 0, .acc 0, .acc 0, .l 0 .rdTop,
    .new 0 2 0 .serve, .hookOk 1, .acc 1, .acc 1,
    .acc 1, .acc 1,                               -- LoadOrStore finds session 0, Store; session0.Close()
    .l 0 .cHubDel,                                -- session 0: delete(id 0, session 0) — maps to session 1: kept
    .l 0 .cNotify, .l 0 .cCallWait, .l 0 .cStore, .l 0 .cSock, .l 0 .cHook,
    .acc 1,                                       -- Close() returned
-   .l 0 .rdExit, .l 0 .dLoad, .l 0 .dStore]
+   .l 0 .rdExit, .l 0 .dLoad, .l 0 .dStore,
+   .l 1 .rdTop]                                  -- the newer session's reader blocks in `ReadMessage`
 
 /-- In the interleaving machine the take-over schedule ends quiescent with the index exact: the
     newer session is live and indexed under the id, the older one is closed. -/
@@ -548,6 +631,42 @@ theorem C07_fail_fast_condition :
       (l.filter fun e => e.kind == "return").map fun e => e.x) = some ["%,statConnClosed"] ∧
     ((Gen.status_sites.filter fun r => r.1 == "session.write").map fun r => (r.2.1, r.2.2.1)) =
       [("cmp", "==statusActiveClosing"), ("cmp", "==statusOk"), ("load", "getStatus")] := by
+  decide
+
+/-- the reader of an established session at position `pc`, the status being `st`. -/
+def readerAt (st : Status) (pc : RPc) : Core := coreAt st .running .idle pc st
+
+/-- **The read loop tests the status twice: before the blocking read and again after it (tie A).**
+    `srcfacts` executes the body of the `for` loop of `session.startReadAndHandle` symbolically for
+    every status constant — `goonRead` evaluated from its own source, the status being one value until
+    `ReadMessage` returns and another one from then on. As the source is NOW:
+    (1) the loop enters `ReadMessage` exactly in the statuses in which the model's `rdTop` moves the
+    reader to `reading`;
+    (2) a frame that `ReadMessage` returned (without error, or with a decode error but a body codec)
+    is dispatched — `graceCtxWaitGroup.Add(1)`, `ctx.handle()` — exactly when the status AFTER the read
+    is one in which the model's `rdChk` moves the reader to `add`, i.e. Ok or ActiveClosing, whatever
+    the status was when the loop condition was evaluated; in every other status the loop is left;
+    (3) a read error without body codec (socket closed, peer gone) is never dispatched (`rdExit`);
+    (4) the landmarks stand in the model's order `rdTop`, `rdMsg`, `rdChk`, `rdAdd`: the loop statement,
+    `ReadMessage`, an exit test between the read and the dispatch, then `Add(1)`, then the handler.
+    Dropping the second test, hoisting it above the read into a local, or testing something weaker
+    than `goonRead` changes the regenerated table and this theorem no longer checks — and
+    `C07_no_recheck_witness` shows what the loop without the second test admits. -/
+theorem C07_read_loop_rechecks_status :
+    Gen.readLoop_missing = [] ∧
+    Gen.readloop_table = allStatus.map (fun st =>
+      (goName st, [(lstep (readerAt st .loop) .rdTop).map (·.reader) == some .reading,
+                   (lstep (readerAt st .got) .rdChk).map (·.reader) == some .add,
+                   (lstep (readerAt st .got) .rdChk).map (·.reader) == some .add])) ∧
+    -- … which is `goonRead` both times, and the variant without the second test differs exactly outside it
+    (allStatus.all fun st =>
+      ((lstep (readerAt st .got) .rdChk).map (·.reader) == some (if goonRead st then .add else .disc0)) &&
+      ((lstepV false (readerAt st .got) .rdChk).map (·.reader) == some .add)) = true ∧
+    Gen.readloop_readerr = allStatus.map (fun st => (goName st, false)) ∧
+    (allStatus.all fun st =>
+      (lstep { readerAt st .reading with sockClosed := true } .rdExit).map (fun c => (c.reader, c.handlers)) == some (.disc0, 0)) = true ∧
+    (Gen.readloop_landmarks.filter fun k => k != "pre-exit") =
+      ["for", "call:ReadMessage", "post-exit", "wg:ctx.Add", "spawn:handle"] := by
   decide
 
 end TieA
